@@ -26,6 +26,8 @@ pub enum UserG {
     LogDomain,
     /// sqrt(1 - |x|^2)-type: logp = ln(1 - sum x^2) (NaN outside the unit ball)
     Ball,
+    /// -x0 - 2 sqrt(x0) (NaN for x0 < 0, and so is its gradient: 1/sqrt of a negative number); other coords standard normal
+    SqrtGrad,
 }
 impl<T: Float + burn::tensor::Element, B: AutodiffBackend> GradientTarget<T, B> for UserG {
     fn unnorm_logp(&self, x: Tensor<B, 1>) -> Tensor<B, 1> {
@@ -58,6 +60,11 @@ impl<T: Float + burn::tensor::Element, B: AutodiffBackend> GradientTarget<T, B> 
                 x0.clone().log() - x0 + rest
             }
             UserG::Ball => (-(x.powi_scalar(2).sum()) + 1.0).log(),
+            UserG::SqrtGrad => {
+                let x0 = x.clone().slice([0..1]);
+                let rest = x.clone().powi_scalar(2).sum().mul_scalar(-0.5) + x0.clone().powi_scalar(2).mul_scalar(0.5);
+                -x0.clone() - x0.sqrt().mul_scalar(2.0) + rest
+            }
         }
     }
 }
@@ -172,6 +179,7 @@ where
         "halfline" => transitions_generic::<T, B, _>(c, UserG::HalfLine),
         "logdomain" => transitions_generic::<T, B, _>(c, UserG::LogDomain),
         "ball" => transitions_generic::<T, B, _>(c, UserG::Ball),
+        "sqrtgrad" => transitions_generic::<T, B, _>(c, UserG::SqrtGrad),
         k => panic!("unknown target {k}"),
     }
 }
@@ -217,6 +225,7 @@ where
         "halfline" => UserG::HalfLine,
         "logdomain" => UserG::LogDomain,
         "ball" => UserG::Ball,
+        "sqrtgrad" => UserG::SqrtGrad,
         "quartic" => UserG::Quartic(f64::from_bits(u64f(tg, "s"))),
         k => panic!("unknown target {k}"),
     };
